@@ -8,6 +8,8 @@ GPrint == (phase = "done") => PrintT(<<"BEHAVIOUR", ToJson(Scenario)>>)
 \* behaviour generation (-simulate picks successors uniformly): valid classes are given more weight
 GenTxn == [s : Sender, n : 1..MaxNonce, c : Class, w : {1}] \cup [s : Sender, n : 1..MaxNonce, c : {"ok"}, w : {2, 3, 4}]
           \cup [s : Sender, n : 1..MaxNonce, c : {"sc"}, w : {2}]
+GenInit == Init /\ len >= 3
+GenSpec == GenInit /\ [][Next]_vars
 \* exhaustive runs: the pool history is a function of nothing the generator reads later
 View == <<st, len, Len(hist), nonce, mnonce, blk, fut, cur, ci, cost, phase, verdict>>
 =============================================================================
